@@ -84,12 +84,16 @@ func (m c11matrix) real() *pipeline.Matrix {
 		case "false":
 			ra.Skip = false
 		case "other":
-			ra.Skip = "reason"
+			// any non-bool, non-nil value means "skip" - the zero values of other types included
+			c11otherN++
+			ra.Skip = []any{"reason", "", 0, 0.0, "false", []any{}, 1}[c11otherN%7]
 		}
 		r.Adjustments = append(r.Adjustments, ra)
 	}
 	return r
 }
+
+var c11otherN int
 
 // c11accepts is the specification, written from the property text.
 func c11accepts(m c11matrix, p map[string]string) bool {
